@@ -34,6 +34,10 @@ is registered before its goroutine is started and the TLS handshake runs inside 
 Start spawns read no listener or TLS-configuration field of the server (they own the values they were started with) -/
 theorem source_lifecycle_matches_transition_system : lifecycleFactsOK = true := by decide
 
+/-- no method of the framework calls, while it holds a mutex of its receiver, a method of the same receiver that takes
+the same mutex again (a recursive read lock deadlocks as soon as a writer arrives in between, and with it every client) -/
+theorem source_no_reentrant_locking : factHolds "noReentrantLocking" = true := by decide
+
 /-- the password gate of command dispatch: the authorization check precedes the single call of the executor, and its
 only exemption is the AUTH command itself -/
 theorem source_auth_gate : (factHolds "authGateBeforeExecutor" && factHolds "authGateExemptsOnlyAuth") = true := by decide
